@@ -1,13 +1,18 @@
 #!/bin/sh
-# usage: tools/mutant_seeds.sh <mutant> <check-id> <seeds...>   apply seeded/<mutant>/patch.diff, run the quick check for each seed, revert
+# usage: tools/mutant_seeds.sh <mutant> <check-id> <seeds...>
+# Applies seeded/<mutant>/patch.diff to a SCRATCH checkout of /repo's HEAD (never to /repo itself), runs the quick check of <check-id>
+# against it for each seed, removes the checkout, and restores Gen/ and evidence/ to what /repo gives.
 cd "$(dirname "$0")/.."
 M=$1; ID=$2; shift; shift
-git -C /repo apply "$PWD/seeded/$M/patch.diff" || exit 3
+WT=/tmp/wt-mut-$$
+git -C /repo worktree add -q --detach $WT HEAD || exit 3
+git -C $WT apply "$PWD/seeded/$M/patch.diff" || { git -C /repo worktree remove --force $WT; exit 3; }
 for s in "$@"; do
-  OUT=$(VERIF_SEED=$s ./check $ID --tier quick 2>&1); RC=$?
+  OUT=$(VERIF_REPO=$WT PYTHONPATH=$WT VERIF_SEED=$s ./check $ID --tier quick 2>&1); RC=$?
   echo "$M check=$ID seed=$s rc=$RC $(echo "$OUT" | grep '^VIOLATION' | head -1 | cut -c1-120) | $(echo "$OUT" | grep '^\[' | tail -1 | cut -c1-200)"
 done
-git -C /repo checkout -- .
-# the evidence files must never come from a run against a modified tree
+git -C /repo worktree remove --force $WT
+# the evidence files and the generated kernels must never come from a run against a modified tree
 git checkout -- evidence 2>/dev/null
 rm -rf replays
+./check --setup >/dev/null 2>&1
